@@ -301,7 +301,7 @@ class C18Check(object):
             """Sequences that rare history bugs need (bias, cf. 'place faults inside operations')."""
             nonlocal npots, nspaces, nops
             kind = r.choice(["fmm_order_change", "fmm_explicit", "pot_pair", "clear_reuse", "mass_order", "mass_order",
-                             "peer_retry", "fmm_other_field", "space_variant_pair", "space_variant_pair"])
+                             "peer_retry", "fmm_other_field", "space_variant_pair", "space_variant_pair", "space_variant_pair"])
             if kind == "space_variant_pair":
                 # two spaces on ONE grid that differ in a single option, the same operator on each, one after
                 # the other: exposes state keyed by the grid although it depends on the space
@@ -316,7 +316,7 @@ class C18Check(object):
                 ne = raws[0][1].shape[1]
                 base = {"kind": kd}
                 variant = {"kind": kd}
-                choice = r.choice(["swapped", "segments", "support", "boundary"])
+                choice = r.choice(["swapped", "swapped", "segments", "support", "boundary"])
                 if choice == "swapped" and len(doms) > 1:
                     variant["swapped_normals"] = sorted(r.sample(doms, r.randint(1, len(doms) - 1)))
                 elif choice == "segments" and len(doms) > 1:
@@ -331,7 +331,7 @@ class C18Check(object):
                     if len(doms) > 1:
                         variant["segments"] = sorted(r.sample(doms, r.randint(1, len(doms) - 1)))
                 first, second = (base, variant) if r.random() < 0.5 else (variant, base)
-                asm = None if spec["family"] == "sparse" else r.choice(["fmm", "fmm", "dense", "only_singular_part"] if enable["fmm"] else ["dense", "only_singular_part"])
+                asm = None if spec["family"] == "sparse" else r.choice(["fmm", "fmm", "fmm", "dense", "only_singular_part"] if enable["fmm"] else ["dense", "only_singular_part"])
                 idx = []
                 for spc in (first, second):
                     add({"t": "create_space", "grid": 0, "spec": spc})
